@@ -91,6 +91,11 @@ SEMANTIC = {  # name -> (symbol_graph source, utils source)
     "recursive_subclasses: direct subclasses only": (SG, rep(UT, (RS_BODY, "    subclasses = cls.__subclasses__()\n"))),
     "recursive_subclasses: no de-duplication": (SG, rep(UT, ("    return list(dict.fromkeys(subclasses))", "    return subclasses"))),
     "recursive_subclasses: recursion on the class itself": (SG, rep(UT, ("for g in recursive_subclasses(s)", "for g in recursive_subclasses(cls)"))),
+    # NOT harmless: the walk order of a lazily consumed evaluation changes (observable through F-C13-3; the end-to-end run
+    # reports `(h (qstart 2 0) (defclass 20 2) (new 0 3) (qnext 2) (defclass 21 3) (new 3 2) (defclass 22 2) (qnext 2))`)
+    "recursive_subclasses: operands swapped (walk order)": (SG, rep(UT, (RS_BODY, """    subs = cls.__subclasses__()
+    subclasses = [g for s in subs for g in recursive_subclasses(s)] + subs
+"""))),
     "WrappedInstance keeps a strong reference": (rep(SG, ("self.instance_reference = weakref.ref(instance)", "self.instance_reference = lambda i=instance: i")), UT),
 }
 
@@ -130,8 +135,8 @@ HARMLESS = {
             (CLS_REMOVE, "        index = wrapped_instance.index\n" + CLS_REMOVE + DEL),
             (PURGE, PURGE.replace("list(\n            self._instance_graph.in_edges(index)\n        ) + list(self._instance_graph.out_edges(index))",
                                   "list(self._instance_graph.out_edges(index)) + list(self._instance_graph.in_edges(index))"))), UT),
-    "recursive_subclasses: alias for __subclasses__(), operands swapped": (SG, rep(UT, (RS_BODY, """    subs = cls.__subclasses__()
-    subclasses = [g for s in subs for g in recursive_subclasses(s)] + subs
+    "recursive_subclasses: alias for __subclasses__()": (SG, rep(UT, (RS_BODY, """    subs = cls.__subclasses__()
+    subclasses = subs + [g for s in subs for g in recursive_subclasses(s)]
 """))),
     "comments and docstrings": (
         rep(SG, (SWEEP, "        # sweep\n        \"\"\"doc\"\"\"\n" + SWEEP), (ENSURE, "        # not yet known\n" + ENSURE)),
